@@ -89,15 +89,31 @@ def strip_comments(src):
     return "".join(out)
 
 
-def grep_forbidden():
+def import_closure(mods):
+    """files of the Ohsl modules reachable through `import Ohsl.…` from the given modules"""
+    seen, todo, files = set(), list(mods), []
+    while todo:
+        m = todo.pop()
+        if m in seen or not m.startswith("Ohsl"): continue
+        seen.add(m)
+        p = os.path.join(LEAN, *m.split(".")) + ".lean"
+        if not os.path.isfile(p): continue
+        files.append(p)
+        for line in open(p).read().split("\n"):
+            mm = re.match(r"\s*(?:public\s+)?import\s+(Ohsl[\w.']*)", line)
+            if mm: todo.append(mm.group(1))
+    return sorted(files)
+
+
+def grep_forbidden(mods):
+    """forbidden tokens in every file the given modules are built from (files of unfinished proofs that
+    are not imported by an enabled module are not part of the build and are not scanned; a `sorry`
+    anywhere in the closure would in any case show up as `sorryAx` in the axiom audit)"""
     hits = []
-    for dp, _, fs in os.walk(os.path.join(LEAN, "Ohsl")):
-        for fn in fs:
-            if not fn.endswith(".lean"): continue
-            p = os.path.join(dp, fn)
-            for k, line in enumerate(strip_comments(open(p).read()).split("\n"), 1):
-                if FORBIDDEN.search(line):
-                    hits.append(f"{os.path.relpath(p, ROOT)}:{k}: {line.strip()}")
+    for p in import_closure(list(mods) + ["Ohsl.Driver"]):
+        for k, line in enumerate(strip_comments(open(p).read()).split("\n"), 1):
+            if FORBIDDEN.search(line):
+                hits.append(f"{os.path.relpath(p, ROOT)}:{k}: {line.strip()}")
     return hits
 
 
@@ -115,7 +131,7 @@ def proof_leg(prop, tier):
         res["ok"] = False
         res["problems"].append("lake build failed: " + r.stdout[-1500:])
         return res
-    hits = grep_forbidden()
+    hits = grep_forbidden(pmods)
     if hits:
         res["ok"] = False
         res["problems"].append("forbidden tokens: " + "; ".join(hits[:10]))
